@@ -1,10 +1,23 @@
 import FeatherModel.Model.VersionGraph
 import FeatherModel.Lemmas.VersionGraph
+import FeatherModel.Lemmas.VersionGraphPaths
+import FeatherModel.Lemmas.VersionGraphScan
 
 /-!
 # C05 — version graph resolves each version to root plus the diffs on its path
-Theorems hold for every content pipeline `c : Content M D` (the driver instantiates it with the Tiny v2 / tiny-diff /
-apply / inner-name models).
+Theorems hold for every content pipeline `c : Content M D` (the driver instantiates it with the tiny-diff application and
+inner-class-name models; reading of `.tiny` / `.tinydiff` text is C03 / C04).
+
+Vocabulary (all in `Model/VersionGraph.lean`):
+* `resolve c dir` — `VersionGraph::resolve` on the directory listing `dir` (file name, content) in `read_dir` order;
+* `applyDiffs c r v` — the *admissible* results of `apply_diffs(v)`: one per shortest root path (`petgraph::astar` with
+  unit weights is assumed to return some shortest path; which one is not specified), `[]` = "there is no path";
+* `IsPath g a b p` — `p` is a chain of edges from `a` to `b`; `live g` — the edges `find_edge` can return.
+
+`WellFormedDir` (the proved domain of the order-independence and lookup theorems) says that no two *different* version
+strings of the directory share a lookup key (a plain name, or either half of `client~server`). Outside it the code
+silently aliases the later string to the earlier node, so the graph depends on the listing order
+(`resolve_perm_collision_witness`); this is why those theorems carry the suffix `_partial`.
 -/
 
 namespace Thm.C05
@@ -12,13 +25,122 @@ open VG
 
 variable {M D : Type}
 
-/-! ## The answer is the fold of the diffs along a root path; path independence -/
+/-! ## `resolve` unfolded -/
 
-/-- `p` is a chain of edges of `g` from `src` to `dst` -/
-inductive IsPath (g : Graph) : JStr → JStr → List Edge → Prop where
-  | nil (n : JStr) : IsPath g n n []
-  | cons {e : Edge} {dst : JStr} {p : List Edge} :
-      e ∈ g.edges → IsPath g e.child dst p → IsPath g e.parent dst (e :: p)
+theorem resolve_some {c : Content M D} {dir : List (JStr × Bytes)} {r : Resolved M} (h : resolve c dir = some r) :
+    ∃ rb, addFiles Graph.empty dir = some r.graph ∧ r.graph.root = some (r.rootName, rb) ∧
+      c.readRoot rb = some r.rootMapping ∧ walkOk r.graph (r.graph.edges.length + 1) [] r.rootName = true := by
+  unfold resolve at h
+  cases ha : addFiles Graph.empty dir with
+  | none => rw [ha] at h; simp at h
+  | some g =>
+    rw [ha] at h; simp only at h
+    cases hr : g.root with
+    | none => rw [hr] at h; simp at h
+    | some q =>
+      obtain ⟨rn, rb⟩ := q
+      rw [hr] at h; simp only at h
+      cases hm : c.readRoot rb with
+      | none => rw [hm] at h; simp at h
+      | some m =>
+        rw [hm] at h; simp only at h
+        split at h
+        · rename_i hw
+          simp only [Option.some.injEq] at h
+          subst h
+          exact ⟨rb, rfl, hr, hm, hw⟩
+        · simp at h
+
+theorem resolve_of_scan (c : Content M D) {dir : List (JStr × Bytes)} {g : Graph}
+    (ha : addFiles Graph.empty dir = some g) :
+    resolve c dir =
+      match g.root with
+      | none => none
+      | some (rootName, rootBytes) =>
+        match c.readRoot rootBytes with
+        | none => none
+        | some m =>
+          if walkOk g (g.edges.length + 1) [] rootName then some { graph := g, rootName := rootName, rootMapping := m }
+          else none := by
+  unfold resolve
+  rw [ha]
+  rfl
+
+/-! ## The answer is the fold of the diffs along a shortest root path, then extension -/
+
+/-- **answer = left fold of the diffs along a root path, then inner-class-name extension**; the path is a shortest one
+among ALL root paths of the graph (this is what the `astar` call with unit weights contributes) -/
+theorem apply_is_fold (c : Content M D) (r : Resolved M) (target : JStr) :
+    ∀ a, a ∈ applyDiffs c r target → ∃ p, IsPath r.graph r.rootName target p ∧
+      (∀ q, IsPath r.graph r.rootName target q → p.length ≤ q.length) ∧
+      a = (foldPath c r.rootMapping p).bind c.extend := by
+  intro a ha
+  simp only [applyDiffs, List.mem_map] at ha
+  obtain ⟨p, hp, rfl⟩ := ha
+  obtain ⟨h1, h2, _⟩ := mem_shortestPaths_iff.mp hp
+  refine ⟨p, h1.of_live, ?_, ?_⟩
+  · intro q hq
+    obtain ⟨q', hq1, hq2⟩ := hq.to_live
+    rw [← hq2]
+    exact h2 q' hq1
+  · simp only [applyAlong]
+    cases foldPath c r.rootMapping p <;> rfl
+
+/-- the diff file used for a step `a -> b` of that path is the one `find_edge(a, b)` returns -/
+theorem apply_path_live (r : Resolved M) (target : JStr) {p : List Edge}
+    (hp : p ∈ shortestPaths r.graph r.rootName target) :
+    ∀ e, e ∈ p → findEdge r.graph e.parent e.child = some e := by
+  intro e he
+  have h1 := (mem_shortestPaths_iff.mp hp).1
+  have := h1.mem_edges e he
+  simp only [live, liveEdges, List.mem_filter, decide_eq_true_eq] at this
+  exact this.2
+
+/-- on a graph that passed the loop check every version that can be reached from the root has an answer -/
+theorem reachable_has_answer (c : Content M D) {dir : List (JStr × Bytes)} {r : Resolved M}
+    (h : resolve c dir = some r) {target : JStr} {p : List Edge} (hp : IsPath r.graph r.rootName target p) :
+    applyDiffs c r target ≠ [] := by
+  obtain ⟨_, _, _, _, hw⟩ := resolve_some h
+  obtain ⟨q, hq1, hq2⟩ := hp.to_live
+  have hlen : q.length ≤ r.graph.edges.length := by
+    cases Nat.lt_or_ge r.graph.edges.length q.length with
+    | inr h => exact h
+    | inl hlt =>
+      have := walk_long_false (r.graph.edges.length + 1) [] r.rootName target p hp (by omega)
+      rw [this] at hw; simp at hw
+  -- the search stops at the first non-empty level, at the latest at `q.length`
+  have key : ∀ (fuel len : Nat), len ≤ q.length → q.length < len + fuel →
+      shortestPaths.go r.graph r.rootName target fuel len ≠ [] := by
+    intro fuel
+    induction fuel with
+    | zero => intro len h1 h2; omega
+    | succ f ih =>
+      intro len h1 h2
+      simp only [shortestPaths.go]
+      cases hps : pathsOfLen r.graph len r.rootName target with
+      | cons x xs => simp
+      | nil =>
+        simp only
+        have hne : len ≠ q.length := by
+          intro he
+          have : q ∈ pathsOfLen r.graph len r.rootName target := (mem_pathsOfLen _ _ _ _).mpr ⟨hq1, he.symm⟩
+          rw [hps] at this; simp at this
+        exact ih (len + 1) (by omega) (by omega)
+  have := key (r.graph.edges.length + 1) 0 (Nat.zero_le _) (by omega)
+  intro hnil
+  simp only [applyDiffs, List.map_eq_nil_iff] at hnil
+  exact this hnil
+
+/-- **unreachable version**: `apply_diffs` has no admissible answer ("there is no path") -/
+theorem unreachable_is_error (c : Content M D) (r : Resolved M) (target : JStr)
+    (h : ∀ p, ¬ IsPath r.graph r.rootName target p) : applyDiffs c r target = [] := by
+  cases hs : shortestPaths r.graph r.rootName target with
+  | nil => simp [applyDiffs, hs]
+  | cons p ps =>
+    have hp : p ∈ shortestPaths r.graph r.rootName target := by rw [hs]; simp
+    exact absurd (mem_shortestPaths_iff.mp hp).1.of_live (h p)
+
+/-! ## Path independence -/
 
 /-- every node carries a mapping set and every edge file is a diff that turns the parent's set into the child's -/
 def Consistent (c : Content M D) (g : Graph) (label : JStr → Option M) : Prop :=
@@ -37,80 +159,75 @@ theorem fold_path_label (c : Content M D) {g : Graph} {label : JStr → Option M
     obtain ⟨m', hf, hl'⟩ := ih mc hl
     exact ⟨m', by simp [foldPath, hd, ha, hf], hl'⟩
 
-theorem pathsOfLen_isPath {g : Graph} : ∀ (len : Nat) (src dst : JStr) (p : List Edge),
-    p ∈ pathsOfLen g len src dst → IsPath g src dst p ∧ p.length = len := by
-  intro len
-  induction len with
-  | zero =>
-    intro src dst p hp
-    simp only [pathsOfLen] at hp
-    split at hp
-    · rename_i h
-      have : src = dst := by simpa using h
-      subst this
-      simp at hp; subst hp
-      exact ⟨IsPath.nil _, rfl⟩
-    · simp at hp
-  | succ n ih =>
-    intro src dst p hp
-    simp only [pathsOfLen, List.mem_flatMap, List.mem_map, List.mem_filter] at hp
-    obtain ⟨e, ⟨he, hpar⟩, q, hq, rfl⟩ := hp
-    have hpar' : e.parent = src := by simpa using hpar
-    obtain ⟨h1, h2⟩ := ih e.child dst q hq
-    subst hpar'
-    exact ⟨IsPath.cons he h1, by simp [h2]⟩
-
-theorem shortestPaths_isPath {g : Graph} {src dst : JStr} {p : List Edge}
-    (hp : p ∈ shortestPaths g src dst) : IsPath g src dst p := by
-  unfold shortestPaths at hp
-  generalize g.nodes.length + 1 = fuel at hp
-  generalize (0 : Nat) = len at hp
-  induction fuel generalizing len with
-  | zero => simp [shortestPaths.go] at hp
-  | succ f ih =>
-    simp only [shortestPaths.go] at hp
-    cases hps : pathsOfLen g len src dst with
-    | nil => rw [hps] at hp; exact ih _ hp
-    | cons q qs =>
-      rw [hps] at hp
-      simp only at hp
-      rw [← hps] at hp
-      exact (pathsOfLen_isPath _ _ _ _ hp).1
-
-/-- the reported mappings are the root mappings with exactly the diffs along a root path applied in order, followed by
-inner-class-name extension -/
-theorem apply_is_fold (c : Content M D) (r : Resolved M) (target : JStr) :
-    ∀ a, a ∈ applyDiffs c r target → ∃ p, IsPath r.graph r.rootName target p ∧
-      a = (foldPath c r.rootMapping p).bind c.extend := by
-  intro a ha
-  simp only [applyDiffs, List.mem_map] at ha
-  obtain ⟨p, hp, rfl⟩ := ha
-  refine ⟨p, shortestPaths_isPath hp, ?_⟩
-  simp only [applyAlong]
-  cases foldPath c r.rootMapping p <;> rfl
-
-/-- path independence: when every node carries `M_v` and every edge file is a diff from its parent's set to its child's,
-every admissible answer for `v` is `extend M_v` — whatever path is taken (hence whatever the listing order made the
-path search prefer) -/
+/-- **path independence**: when every node carries `M_v` and every edge file is a diff from its parent's set to its
+child's, every admissible answer for `v` is `extend M_v` — whatever path is taken (hence whatever the listing order made
+the path search prefer); in particular on trees, where the labels are given by the unique root paths -/
 theorem path_independent (c : Content M D) (r : Resolved M) {label : JStr → Option M}
     (hc : Consistent c r.graph label) (hroot : label r.rootName = some r.rootMapping) (target : JStr) :
     ∀ a, a ∈ applyDiffs c r target → ∃ mv, label target = some mv ∧ a = c.extend mv := by
   intro a ha
   simp only [applyDiffs, List.mem_map] at ha
   obtain ⟨p, hp, rfl⟩ := ha
-  obtain ⟨m', hf, hl⟩ := fold_path_label c hc (shortestPaths_isPath hp) _ hroot
+  obtain ⟨m', hf, hl⟩ := fold_path_label c hc (mem_shortestPaths_iff.mp hp).1.of_live _ hroot
   exact ⟨m', hl, by simp [applyAlong, hf]⟩
 
-/-- an unreachable version has no admissible answer: `apply_diffs` reports "there is no path" -/
-theorem unreachable_is_error (c : Content M D) (r : Resolved M) (target : JStr)
-    (h : shortestPaths r.graph r.rootName target = []) : applyDiffs c r target = [] := by
-  simp [applyDiffs, h]
+/-- a version with a single incoming edge per node on the way (a tree) has a single root path: if no node has two
+incoming edges and the root has none, any two root paths to the same version are equal -/
+theorem tree_unique_path {g : Graph} {root : JStr}
+    (hin : ∀ e1, e1 ∈ g.edges → ∀ e2, e2 ∈ g.edges → e1.child = e2.child → e1 = e2)
+    (hroot : ∀ e, e ∈ g.edges → e.child ≠ root) :
+    ∀ (n : Nat) (v : JStr) (p q : List Edge), p.length = n → IsPath g root v p → IsPath g root v q → p = q := by
+  intro n
+  induction n with
+  | zero =>
+    intro v p q hn hp hq
+    have : p = [] := List.eq_nil_of_length_eq_zero hn
+    subst this
+    have hv := hp.nil_inv
+    subst hv
+    -- `q` is a path root -> root; a non-empty one would end in an edge into the root
+    rcases List.eq_nil_or_concat q with h | ⟨q', e, h⟩
+    · exact h.symm
+    · subst h
+      rw [List.concat_eq_append] at hq
+      obtain ⟨b, _, h2⟩ := hq.split
+      obtain ⟨_, he, hch⟩ := h2.single_inv
+      exact absurd hch (hroot e he)
+  | succ n ih =>
+    intro v p q hn hp hq
+    rcases List.eq_nil_or_concat p with h | ⟨p', e, h⟩
+    · subst h; simp at hn
+    · subst h
+      rw [List.concat_eq_append] at hp hn
+      obtain ⟨b, hp1, hp2⟩ := hp.split
+      obtain ⟨hb, he, hch⟩ := hp2.single_inv
+      subst hb
+      rcases List.eq_nil_or_concat q with h | ⟨q', e', h⟩
+      · subst h
+        have := hq.nil_inv
+        rw [← this] at hch
+        exact absurd hch (hroot e he)
+      · subst h
+        rw [List.concat_eq_append] at hq
+        obtain ⟨b', hq1, hq2⟩ := hq.split
+        obtain ⟨hb', he', hch'⟩ := hq2.single_inv
+        subst hb'
+        -- both paths end in an edge into `v`
+        have hee : e' = e := hin e' he' e he (by rw [hch, hch'])
+        subst hee
+        have := ih e'.parent p' q' (by simpa using hn) hp1 hq1
+        rw [this, List.concat_eq_append]
 
 /-! ## Graph construction does not depend on the directory listing order -/
 
 /-- well-formed directory: no two different version strings (file stems, both sides of `#`) share a lookup key
 (a plain name, or either half of `client~server`) -/
 def WellFormedDir (dir : List (JStr × Bytes)) : Prop := KeysDisjoint (dirVersions dir)
+
+/-- the domain predicate is decidable (the driver and the harness evaluate it on every generated directory) -/
+theorem wellFormed_decidable (dir : List (JStr × Bytes)) :
+    keysDisjointB (dirVersions dir) = true ↔ WellFormedDir dir :=
+  keysDisjointB_iff _
 
 /-- closed form of the graph built from a well-formed directory: the lookup table, the edges and the root are given by
 the *set* of files, not by the order in which `read_dir` lists them -/
@@ -126,8 +243,9 @@ theorem graph_closed_form {dir : List (JStr × Bytes)} {g : Graph} (hwf : WellFo
   rw [hspec k sp n, hseen n]
   simp
 
-/-- every plain version is reachable under its name and every `client~server` version under either half -/
-theorem lookup_names {dir : List (JStr × Bytes)} {g : Graph} (hwf : WellFormedDir dir)
+/-- **every plain version is reachable under its name and every `client~server` version under either half**
+(`_partial`: on well-formed directories; with a shared key only one of the colliding versions can own it) -/
+theorem lookup_names_partial {dir : List (JStr × Bytes)} {g : Graph} (hwf : WellFormedDir dir)
     (h : addFiles Graph.empty dir = some g) {vs : JStr} (hvs : vs ∈ dirVersions dir) :
     (splitOnce TILDE vs = none → AList.lookup vs g.versions = some (Split.none, vs)) ∧
     (∀ c s, splitOnce TILDE vs = some (c, s) →
@@ -141,7 +259,7 @@ theorem lookup_names {dir : List (JStr × Bytes)} {g : Graph} (hwf : WellFormedD
     exact ⟨(hl c Split.first vs).mpr ⟨hvs, by simp [keyKind, hs]⟩,
       fun hne => (hl s Split.second vs).mpr ⟨hvs, by simp [keyKind, hs, hne]⟩⟩
 
-/-- a name that is no key of any version string of the directory is unknown (`get` fails) -/
+/-- **unknown version**: a name that is no key of any version string of the directory is unknown (`get` fails) -/
 theorem unknown_version {dir : List (JStr × Bytes)} {g : Graph} (hwf : WellFormedDir dir)
     (h : addFiles Graph.empty dir = some g) {k : JStr}
     (hk : ∀ n, n ∈ dirVersions dir → keyKind k n = none) : AList.lookup k g.versions = none := by
@@ -161,14 +279,41 @@ theorem dirVersions_perm {d d' : List (JStr × Bytes)} (hp : d'.Perm d) (n : JSt
   · intro ⟨f, hf, hn⟩; exact ⟨f, hp.mem_iff.mp hf, hn⟩
   · intro ⟨f, hf, hn⟩; exact ⟨f, hp.mem_iff.mpr hf, hn⟩
 
-/-- order independence: any two listing orders of a well-formed directory give the same lookup table, the same edge
-set and the same root -/
-theorem resolve_perm {dir dir' : List (JStr × Bytes)} {g g' : Graph} (hp : dir'.Perm dir) (hwf : WellFormedDir dir)
+theorem wellFormed_perm {dir dir' : List (JStr × Bytes)} (hp : dir'.Perm dir) (hwf : WellFormedDir dir) :
+    WellFormedDir dir' := by
+  intro v1 h1 v2 h2 hne k hk
+  exact hwf v1 ((dirVersions_perm hp v1).mp h1) v2 ((dirVersions_perm hp v2).mp h2) hne k hk
+
+/-- **the scan fails in one listing order iff it fails in every other** — for ALL directories, well formed or not: it
+fails exactly when some `.tinydiff` stem has no `#` or there are two `.tiny` files -/
+theorem scan_error_iff (dir : List (JStr × Bytes)) :
+    addFiles Graph.empty dir = none ↔ (dir.any badDiffName = true ∨ 2 ≤ (dirRoots dir).length) := by
+  rw [addFiles_none_iff]
+  simp [rootBit, Graph.empty]
+
+theorem scan_error_perm {dir dir' : List (JStr × Bytes)} (hp : dir'.Perm dir) :
+    addFiles Graph.empty dir' = none ↔ addFiles Graph.empty dir = none := by
+  rw [scan_error_iff, scan_error_iff]
+  have h1 : dir'.any badDiffName = dir.any badDiffName := by
+    cases h : dir.any badDiffName with
+    | true =>
+      rw [List.any_eq_true] at h ⊢
+      obtain ⟨x, hx, hb⟩ := h
+      exact ⟨x, hp.mem_iff.mpr hx, hb⟩
+    | false =>
+      rw [List.any_eq_false] at h ⊢
+      intro x hx
+      exact h x (hp.mem_iff.mp hx)
+  have h2 : (dirRoots dir').length = (dirRoots dir).length := (hp.filterMap _).length_eq
+  rw [h1, h2]
+
+/-- **order independence of the graph**: any two listing orders of a well-formed directory give the same lookup table,
+the same edge set and the same root -/
+theorem resolve_perm_partial {dir dir' : List (JStr × Bytes)} {g g' : Graph} (hp : dir'.Perm dir)
+    (hwf : WellFormedDir dir)
     (h : addFiles Graph.empty dir = some g) (h' : addFiles Graph.empty dir' = some g') :
     (∀ k, AList.lookup k g'.versions = AList.lookup k g.versions) ∧ g'.edges.Perm g.edges ∧ g'.root = g.root := by
-  have hwf' : WellFormedDir dir' := by
-    intro v1 h1 v2 h2 hne k hk
-    exact hwf v1 ((dirVersions_perm hp v1).mp h1) v2 ((dirVersions_perm hp v2).mp h2) hne k hk
+  have hwf' : WellFormedDir dir' := wellFormed_perm hp hwf
   obtain ⟨hl, he, hr⟩ := graph_closed_form hwf h
   obtain ⟨hl', he', hr'⟩ := graph_closed_form hwf' h'
   refine ⟨?_, ?_, ?_⟩
@@ -197,54 +342,211 @@ theorem resolve_perm {dir dir' : List (JStr × Bytes)} {g g' : Graph} (hp : dir'
       have : r' = r := by simpa using hroots
       rw [hg, hg', this]
 
-/-- no root: a directory without a `.tiny` file is rejected -/
-theorem no_root_is_error (c : Content M D) {dir : List (JStr × Bytes)} (hwf : WellFormedDir dir)
-    (h : dirRoots dir = []) : resolve c dir = none := by
-  unfold resolve
+/-- **order independence of `resolve`**: it fails in one listing order of a well-formed directory iff it fails in every
+other (scan errors, missing root, unreadable root, loop), and two successful runs agree on every lookup, on the edge set,
+on the root and on the root mappings -/
+theorem resolve_outcome_perm_partial (c : Content M D) {dir dir' : List (JStr × Bytes)} (hp : dir'.Perm dir)
+    (hwf : WellFormedDir dir) :
+    (resolve c dir' = none ↔ resolve c dir = none) ∧
+    ∀ r r', resolve c dir = some r → resolve c dir' = some r' →
+      (∀ k, get r' k = get r k) ∧ r'.graph.edges.Perm r.graph.edges ∧ r'.rootName = r.rootName ∧
+        r'.rootMapping = r.rootMapping := by
   cases ha : addFiles Graph.empty dir with
-  | none => rfl
+  | none =>
+    have ha' := (scan_error_perm hp).mpr ha
+    constructor
+    · simp [resolve, ha, ha']
+    · intro r r' h; simp [resolve, ha] at h
   | some g =>
-    obtain ⟨_, _, hr⟩ := graph_closed_form hwf ha
-    rcases hr with ⟨_, hg⟩ | ⟨r, hn, _⟩
-    · simp [hg]
-    · rw [h] at hn; simp at hn
+    cases ha' : addFiles Graph.empty dir' with
+    | none => rw [(scan_error_perm hp).mp ha'] at ha; simp at ha
+    | some g' =>
+      obtain ⟨hl, he, hr⟩ := resolve_perm_partial hp hwf ha ha'
+      rw [resolve_of_scan c ha, resolve_of_scan c ha', hr]
+      cases hroot : g.root with
+      | none => simp
+      | some q =>
+        obtain ⟨rn, rb⟩ := q
+        simp only
+        cases c.readRoot rb with
+        | none => simp
+        | some m =>
+          simp only
+          have hw : walkOk g' (g'.edges.length + 1) [] rn = walkOk g (g.edges.length + 1) [] rn := by
+            rw [he.length_eq]
+            exact walkOk_perm he _ _ _
+          rw [hw]
+          cases walkOk g (g.edges.length + 1) [] rn with
+          | false => simp
+          | true =>
+            simp only [if_true]
+            constructor
+            · simp
+            · intro r r' h h'
+              simp only [Option.some.injEq] at h h'
+              subst h; subst h'
+              exact ⟨fun k => by simp [VG.get, hl k], he, rfl, rfl⟩
 
-/-- two roots: a directory with two `.tiny` files is rejected, in either listing order -/
-theorem two_roots_is_error (c : Content M D) {dir : List (JStr × Bytes)} (hwf : WellFormedDir dir)
-    (h : 2 ≤ (dirRoots dir).length) : resolve c dir = none := by
-  unfold resolve
+/-- **order independence of the answers**: for a well-formed directory without duplicate file names the admissible
+answers for every version are the same in every listing order -/
+theorem answers_perm_partial (c : Content M D) {dir dir' : List (JStr × Bytes)} (hp : dir'.Perm dir)
+    (hwf : WellFormedDir dir) (hnd : (dir.map Prod.fst).Nodup) {r r' : Resolved M}
+    (h : resolve c dir = some r) (h' : resolve c dir' = some r') (target : JStr) :
+    ∀ a, a ∈ applyDiffs c r' target ↔ a ∈ applyDiffs c r target := by
+  obtain ⟨_, he, hrn, hrm⟩ := (resolve_outcome_perm_partial c hp hwf).2 r r' h h'
+  obtain ⟨_, ha, _, _, _⟩ := resolve_some h
+  obtain ⟨_, ha', _, _, _⟩ := resolve_some h'
+  have hnd' : (dir'.map Prod.fst).Nodup := (hp.map _).nodup_iff.mpr hnd
+  have hnp : NoParallel r.graph := by
+    intro e1 h1 e2 h2
+    rw [(graph_closed_form hwf ha).2.1] at h1 h2
+    exact dirEdges_noParallel hnd e1 h1 e2 h2
+  have hnp' : NoParallel r'.graph := by
+    intro e1 h1 e2 h2
+    rw [(graph_closed_form (wellFormed_perm hp hwf) ha').2.1] at h1 h2
+    exact dirEdges_noParallel hnd' e1 h1 e2 h2
+  have hlive : ∀ e, e ∈ (live r'.graph).edges ↔ e ∈ (live r.graph).edges := by
+    intro e
+    simp only [live, liveEdges_of_noParallel hnp, liveEdges_of_noParallel hnp']
+    exact he.mem_iff
+  have hsp : ∀ p, p ∈ shortestPaths r'.graph r'.rootName target ↔ p ∈ shortestPaths r.graph r.rootName target := by
+    intro p
+    rw [mem_shortestPaths_iff, mem_shortestPaths_iff, hrn, he.length_eq]
+    have hpath : ∀ q, IsPath (live r'.graph) r.rootName target q ↔ IsPath (live r.graph) r.rootName target q :=
+      fun q => ⟨fun hq => hq.mono (fun e he => (hlive e).mp he), fun hq => hq.mono (fun e he => (hlive e).mpr he)⟩
+    constructor
+    · intro ⟨h1, h2, h3⟩
+      exact ⟨(hpath p).mp h1, fun q hq => h2 q ((hpath q).mpr hq), h3⟩
+    · intro ⟨h1, h2, h3⟩
+      exact ⟨(hpath p).mpr h1, fun q hq => h2 q ((hpath q).mp hq), h3⟩
+  intro a
+  simp only [applyDiffs, List.mem_map]
+  constructor
+  · intro ⟨p, hp1, hp2⟩
+    exact ⟨p, (hsp p).mp hp1, by rw [← hp2]; simp [applyAlong, hrm]⟩
+  · intro ⟨p, hp1, hp2⟩
+    exact ⟨p, (hsp p).mpr hp1, by rw [← hp2]; simp [applyAlong, hrm]⟩
+
+/-- the directory of the negative theorem: `b` is both a plain version and the server half of `a~b` -/
+def collisionDir : List (JStr × Bytes) :=
+  [(jstr "r.tiny", [0]), (jstr "r#a~b.tinydiff", [1]), (jstr "r#b.tinydiff", [2])]
+
+/-- **negative**: without `WellFormedDir` the graph depends on the listing order. Listing `collisionDir` forwards makes
+`b` an alias of the node `a~b` (one node below the root, two parallel edges), listing it backwards makes `b` a node of
+its own. (The property text calls a directory well formed when it has one root and `parent#child` diff files; this one
+has, so order independence as literally stated fails here.) -/
+theorem resolve_perm_collision_witness :
+    collisionDir.reverse.Perm collisionDir ∧ ¬ WellFormedDir collisionDir ∧
+    (addFiles Graph.empty collisionDir).map (fun g => (AList.lookup (jstr "b") g.versions, g.nodes.length)) =
+      some (some (Split.second, jstr "a~b"), 2) ∧
+    (addFiles Graph.empty collisionDir.reverse).map (fun g => (AList.lookup (jstr "b") g.versions, g.nodes.length)) =
+      some (some (Split.none, jstr "b"), 3) := by
+  refine ⟨List.reverse_perm _, ?_, by decide, by decide⟩
+  rw [← wellFormed_decidable]
+  decide
+
+/-! ## Error shapes -/
+
+/-- **no root**: a directory without a `.tiny` file is rejected (any directory, any listing order) -/
+theorem no_root_is_error (c : Content M D) {dir : List (JStr × Bytes)} (h : dirRoots dir = []) :
+    resolve c dir = none := by
   cases ha : addFiles Graph.empty dir with
-  | none => rfl
+  | none => simp [resolve, ha]
   | some g =>
-    obtain ⟨_, _, hr⟩ := graph_closed_form hwf ha
-    rcases hr with ⟨hn, _⟩ | ⟨r, hn, _⟩ <;> rw [hn] at h <;> simp at h
+    have : g.root = none := by
+      rw [addFiles_root_none dir ha h]; rfl
+    rw [resolve_of_scan c ha, this]
 
-/-- a `.tinydiff` whose stem has no `#` is rejected -/
-theorem bad_diff_name_is_error {g : Graph} {f : JStr × Bytes} {raw : JStr}
-    (ht : stripSuffix EXT_TINY f.1 = none) (hd : stripSuffix EXT_DIFF f.1 = some raw)
-    (hh : splitOnce HASH raw = none) : addFile g f = none := by
-  simp [addFile, ht, hd, hh]
+/-- **two roots**: a directory with two `.tiny` files is rejected (any directory, any listing order) -/
+theorem two_roots_is_error (c : Content M D) {dir : List (JStr × Bytes)} (h : 2 ≤ (dirRoots dir).length) :
+    resolve c dir = none := by
+  have := (scan_error_iff dir).mpr (Or.inr h)
+  simp [resolve, this]
 
-/-- a cycle through the children of the root is rejected by `resolve` -/
-theorem loop_is_error (c : Content M D) {dir : List (JStr × Bytes)} {g : Graph} {rootName : JStr} {rb : Bytes}
+/-- a `.tinydiff` whose stem has no `#` is rejected (any directory, any listing order) -/
+theorem bad_diff_name_is_error (c : Content M D) {dir : List (JStr × Bytes)} {f : JStr × Bytes} (hf : f ∈ dir)
+    (hb : badDiffName f = true) : resolve c dir = none := by
+  have := (scan_error_iff dir).mpr (Or.inl (List.any_eq_true.mpr ⟨f, hf, hb⟩))
+  simp [resolve, this]
+
+/-- **cycle**: a cycle that can be reached from the root is rejected by `resolve` (with any amount of fuel: the
+recursion bound of the model never hides a loop) -/
+theorem cycle_is_error (c : Content M D) {dir : List (JStr × Bytes)} {g : Graph} {rootName : JStr} {rb : Bytes}
     (ha : addFiles Graph.empty dir = some g) (hroot : g.root = some (rootName, rb))
-    (hw : walkOk g (g.nodes.length + 2) [] rootName = false) : resolve c dir = none := by
-  unfold resolve
-  rw [ha]
-  simp only [hroot]
+    (hcyc : ReachableCycle g rootName) : resolve c dir = none := by
+  obtain ⟨v, p, q, hp, hq, hne⟩ := hcyc
+  obtain ⟨p', hp', hlen⟩ := cycle_unbounded hp hq hne (g.edges.length + 1)
+  have hw := walk_long_false (g.edges.length + 1) [] rootName v p' hp' hlen
+  rw [resolve_of_scan c ha, hroot]
+  simp only
   cases c.readRoot rb with
   | none => rfl
   | some m => simp [hw]
 
-/-- non-vacuity (see the `example` below): a diamond `r -> a~x -> c`, `r -> b -> c` given in some listing order is well formed and resolves -/
+/-- **the loop check has no false alarms** (fuel sufficiency of the model's walk): a scanned directory with a readable
+root and no cycle reachable from the root resolves -/
+theorem acyclic_resolves (c : Content M D) {dir : List (JStr × Bytes)} {g : Graph} {rootName : JStr} {rb : Bytes}
+    {m : M} (ha : addFiles Graph.empty dir = some g) (hroot : g.root = some (rootName, rb))
+    (hm : c.readRoot rb = some m) (hac : ¬ ReachableCycle g rootName) :
+    resolve c dir = some { graph := g, rootName := rootName, rootMapping := m } := by
+  have hw : walkOk g (g.edges.length + 1) [] rootName = true := by
+    cases h : walkOk g (g.edges.length + 1) [] rootName with
+    | true => rfl
+    | false =>
+      exact absurd (walk_false_cycle (g.edges.length + 1) [] rootName [] (IsPath.nil _) rfl List.nodup_nil
+        (by simp) h) hac
+  rw [resolve_of_scan c ha, hroot]
+  simp [hm, hw]
+
+/-- **a version on a cycle never gets an arbitrary answer**: either the directory is rejected, or (the cycle cannot be
+reached from the root) `apply_diffs` reports that there is no path -/
+theorem cycle_node_error (c : Content M D) {dir : List (JStr × Bytes)} {r : Resolved M}
+    (h : resolve c dir = some r) {v : JStr} {q : List Edge} (hq : IsPath r.graph v v q) (hne : q ≠ []) :
+    applyDiffs c r v = [] := by
+  apply unreachable_is_error
+  intro p hp
+  obtain ⟨rb, ha, hroot, _, _⟩ := resolve_some h
+  have := cycle_is_error c ha hroot ⟨v, p, q, hp, hq, hne⟩
+  rw [h] at this
+  simp at this
+
+/-! ## Non-vacuity -/
+
+/-- a diamond `r -> a~x -> c`, `r -> b -> c` plus a stray file, in some listing order -/
 def exampleDir : List (JStr × Bytes) :=
   [(jstr "a~x#c.tinydiff", [1]), (jstr "r.tiny", [0]), (jstr "r#a~x.tinydiff", [2]),
    (jstr "b#c.tinydiff", [3]), (jstr "r#b.tinydiff", [4]), (jstr "notes.txt", [9])]
 
+/-- a content pipeline that records what happened: mappings = list of file ids applied so far -/
+def traceContent : Content (List Nat) Nat where
+  readRoot b := some b
+  readDiff b := b.head?
+  apply d m := some (m ++ [d])
+  extend m := some (m ++ [100])
+
+example : WellFormedDir exampleDir ∧ (exampleDir.map Prod.fst).Nodup := by
+  refine ⟨(wellFormed_decidable _).mp (by decide), by decide⟩
+
 example :
-    (addFiles Graph.empty exampleDir).map (fun g => (g.nodes, AList.lookup (jstr "x") g.versions, g.edges.length, g.root.map (·.1),
-      walkOk g (g.nodes.length + 2) [] (jstr "r"), (shortestPaths g (jstr "r") (jstr "c")).length)) =
-    some ([jstr "c", jstr "a~x", jstr "r", jstr "b"], some (Split.second, jstr "a~x"), 4, some (jstr "r"), true, 2) := by
+    (resolve traceContent exampleDir).map (fun r => (r.graph.nodes, get r (jstr "x"), r.graph.edges.length, r.rootName,
+      applyDiffs traceContent r (jstr "c"), applyDiffs traceContent r (jstr "b"), applyDiffs traceContent r (jstr "q"),
+      depth r (jstr "c"))) =
+    some ([jstr "c", jstr "a~x", jstr "r", jstr "b"], some (Split.second, jstr "a~x"), 4, jstr "r",
+      [some [0, 2, 1, 100], some [0, 4, 3, 100]], [some [0, 4, 100]], [], 2) := by
   rfl
+
+/-- the same files listed backwards: same admissible answers (in another order) -/
+example :
+    (resolve traceContent exampleDir.reverse).map (fun r => applyDiffs traceContent r (jstr "c")) =
+    some [some [0, 4, 3, 100], some [0, 2, 1, 100]] := by
+  rfl
+
+/-- a cycle below the root is rejected; a cycle the root cannot reach is not, its versions have no answer -/
+example :
+    resolve traceContent [(jstr "r.tiny", [0]), (jstr "r#a.tinydiff", [1]), (jstr "a#b.tinydiff", [2]),
+      (jstr "b#a.tinydiff", [3])] = none ∧
+    (resolve traceContent [(jstr "r.tiny", [0]), (jstr "c#b.tinydiff", [2]), (jstr "b#c.tinydiff", [3])]).map
+      (fun r => applyDiffs traceContent r (jstr "b")) = some [] := by
+  exact ⟨rfl, rfl⟩
 
 end Thm.C05
